@@ -19,6 +19,7 @@ import (
 	"github.com/DrmagicE/gmqtt/server"
 
 	"verif/harness/broker"
+	"verif/harness/props/restored"
 	"verif/harness/monitor"
 	"verif/harness/mqttx"
 	"verif/harness/wire"
@@ -806,6 +807,36 @@ func Run(r *monitor.Run) {
 		}
 		scs[i] = sc
 	}
+	// sessions restored from the durable store at start-up: what is dropped for them is counted, too
+	var rwg sync.WaitGroup
+	for vi, variant := range restored.Variants {
+		for k := 0; k < r.Pick(2, 6); k++ {
+			rwg.Add(1)
+			go func(variant restored.Variant, vi, k int) {
+				defer rwg.Done()
+				v := []byte{5, 4}[(vi+k)%2]
+				api := k%2 == 0
+				res, err := restored.Run(variant, v, api, 1+(k/2)%3)
+				r.Eval(1)
+				if err != nil {
+					r.Inconclusive(fmt.Sprintf("restored %s: %v", variant, err))
+					return
+				}
+				sigs, whats := res.Conservation()
+				for i := range sigs {
+					r.Violation(sigs[i], whats[i], map[string]any{"result": res})
+				}
+				// a broker that panics or stops answering here is C15's finding; for C20 nothing could be counted
+				if ls, lw := res.Liveness(); len(ls) > 0 {
+					r.Violation("restored.unusable:"+ls[0], lw[0], map[string]any{"result": res})
+				}
+				r.Count("restored_session_scenarios", 1)
+				r.Count("restored_session_drops_counted", int64(res.Client.MessageStats.Qos1.GetDroppedTotal()))
+				r.Nontrivial(fmt.Sprintf("restored|%s|%d|%v|%d", variant, v, api, k))
+			}(variant, vi, k)
+		}
+	}
+	defer rwg.Wait()
 	r.Parallel(n, 16, func(i int) {
 		sc := &scs[i]
 		fs, obs, err := runScenario(sc)
